@@ -65,6 +65,16 @@ CHECKS = {
               "references from the declaring package are never candidates; per file ignore-first, PKGO01 once per (package,type), PKGO02/03 each (same dedup theorem as C03). Same correspondence as C01."),
         note="Fragment: non-generic defined types, direct imports, one candidate per line; go/parser + go/types facts are inputs serialised verbatim by `ggx skel`; well-formedness (no FuncDecl nested in a declaration) evaluated by the model on every serialised package. Dot-imports, fields of @packageonly structs and promoted methods are left unspecified (DESIGN 5.1).",
         technique="Coq proof (union/denied characterisation, dedup theorem) + model/implementation correspondence"),
+    "C05": dict(
+        text=("Theorems (Coq): IMPL01 iff a qualifier is given and no import of that file binds it under its explicit alias or the imported package's declared name (proved from the four-priority "
+              "lookup plus the bound-name guard, every import having a known package name); otherwise IMPL02 iff the resolved package - the current one or a direct import - has no interface of "
+              "that name; otherwise IMPL03 iff some method of the interface has no counterpart of the same name with a matching signature in the method set of T (of *T with &), and the listed "
+              "methods are exactly those, in the interface's order (last-wins map = the unique method, names being unique); a correct annotation is silent; at most one code per annotation; the "
+              "signature comparison is an equivalence that sees through aliases, compares basic types by kind, counts pointers, accepts an exact copy and needs equal arities. Method sets and "
+              "interface completion are go/types inputs serialised verbatim. Tied to the code on generated interface/type pairs: binary = model by (file, line, column, code, message) and "
+              "binary = Go's own verdict (import scoping, scope lookup, NewMethodSet + Identical, cross-checked with types.Implements) including the names of the missing methods."),
+        note="Fragment: non-generic types and interfaces; no unexported interface methods across packages; no @implements on an alias declaration. types.Identical is a library model (canonical forms) exercised on every generated pair.",
+        technique="Coq proof (resolution, three-phase characterisation, signature-matching laws) + correspondence with the model and with Go's type checker as independent oracle"),
     "C07": dict(
         text=("Theorems (Coq): a comment before the package clause covers the whole file; otherwise the scope ends at the end of the first declaration that ends after the comment when the comment "
               "stands before it, else at the end of the node the stateful pruned walk settles on, which is the FIRST node in source order that starts after the comment (proved for every tree whose "
